@@ -3503,7 +3503,9 @@ evhttp_response_code_(struct evhttp_request *req, int code, const char *reason)
 	req->response_code = code;
 	if (req->response_code_line != NULL)
 		mm_free(req->response_code_line);
-	if (reason == NULL)
+	/* A reason phrase cannot contain line breaks (RFC 9112 section 4): use
+	 * the standard phrase rather than emit caller-controlled header lines. */
+	if (reason == NULL || strpbrk(reason, "\r\n") != NULL)
 		reason = evhttp_response_phrase_internal(code);
 	req->response_code_line = mm_strdup(reason);
 	if (req->response_code_line == NULL) {
